@@ -191,6 +191,11 @@ def opaque_external(I, name, args, kw, may_raise=True, pykind='object'):
 
 
 def opaque_call(I, f, args, kw):
+    if 'logger' in f.facts:
+        level = f.name.rsplit('.', 1)[-1]
+        I.path.event('log', level, taint_of(list(args)) | taint_of(list(kw.values())),
+                     I.call_stack[-1] if I.call_stack else None)
+        return None
     return opaque_external(I, f.name + "()", [f] + list(args), kw,
                            may_raise='noraise' not in f.facts)
 
@@ -200,7 +205,7 @@ def opaque_getattr(I, v, name):
         return v.fields[name]
     if v.pykind in ('str', 'bytes', 'int', 'list', 'dict'):
         return _pyvc().BoundMethod(v, _OpaqueMethod(name))
-    r = Opaque('object', v.name + '.' + name, v.taint, v.facts & {'noraise'})
+    r = Opaque('object', v.name + '.' + name, v.taint, v.facts & {'noraise', 'logger'})
     v.fields[name] = r
     return r
 
@@ -284,7 +289,8 @@ def _havoc_like(I, v, name, kind=None):
         return SInt(fresh(name))
     if isinstance(v, (bytes, str, SSeq)):
         k = seq_of(v).kind
-        return SSeq(k, [('s', fresh(name, IntSeq))], taint_of(v))
+        return SSeq(k, [('s', fresh(name, IntSeq))], taint_of(v),
+                    v.bound if isinstance(v, SSeq) else None)
     if isinstance(v, MB):
         return MB(SSeq('bytes', [('s', fresh(name, IntSeq))]))
     raise OutOfFragment("cannot havoc %s of kind %s (declare havoc kind in the loop spec)"
@@ -379,13 +385,46 @@ def _prove_inv(I, spec, env, extra, name):
         I.path.prove("%s.%d" % (name, i) if len(spec.inv) > 1 else name, t, kind="inv")
 
 
-def _assume_inv(I, spec, env, extra):
-    for t in _eval_inv(I, spec, env, extra):
-        I.path.assume(t if isinstance(t, bool) else t)
+def _assume_inv(I, spec, env, extra, havocked=()):
+    """Assume the invariant.  A conjunct `<havocked path> == E` *binds* the path
+    to E (same meaning as assuming the equation about a fresh value, but keeps
+    the chunk structure of E, which the solver needs for element facts)."""
+    bound = set()
+
+    def conjuncts(node):
+        if isinstance(node, ast.BoolOp) and isinstance(node.op, ast.And):
+            out = []
+            for v in node.values:
+                out.extend(conjuncts(v))
+            return out
+        return [node]
+    for src in spec.inv:
+        for node in conjuncts(parse_expr(src)):
+            loc = dict(env.locals)
+            loc.update(extra)
+            e = _pyvc().Env(loc, env.globals, env.cls_ctx, '<inv>', None)
+            e.spec = True
+            e.old = env.locals.get('__old__')
+            if isinstance(node, ast.Compare) and len(node.ops) == 1 and isinstance(node.ops[0], ast.Eq):
+                ltxt = ast.unparse(node.left)
+                if ltxt in havocked and ltxt not in bound:
+                    val = I.eval(node.comparators[0], e)
+                    if isinstance(node.left, ast.Name):
+                        if ltxt in extra:
+                            extra[ltxt] = val
+                        else:
+                            env.locals[ltxt] = val
+                    else:
+                        o = I.resolve_opt(I.eval(node.left.value, e))
+                        o.fields[node.left.attr] = val
+                    bound.add(ltxt)
+                    continue
+            I.path.assume(I.truth(I.eval(node, e)))
 
 
 def _havoc_loop_state(I, node, env, spec, tag, extra_skip=()):
     names = [n for n in _assigned_names(node.body) if n in env.locals and n not in extra_skip]
+    spec._havocked = set(names) | set(spec.havoc) | set(spec.modifies)
     for n in names:
         env.locals[n] = _havoc_like(I, env.locals[n], "%s_%s" % (tag, n), spec.havoc.get(n))
     for n, kind in spec.havoc.items():
@@ -427,7 +466,7 @@ def symbolic_for(I, node, env, it, spec, k, qn):
         gh = {g: _havoc_like(I, v, "g_" + g) for g, v in ghosts.items()}
         extra = dict(gh)
         extra[idx_name] = SInt(i)
-        _assume_inv(I, spec, env, extra)
+        _assume_inv(I, spec, env, extra, spec._havocked | set(gh))
         if P.choose(2, "loop") == 0:
             # one arbitrary iteration
             P.assume(i < n_t)
@@ -468,18 +507,18 @@ def symbolic_for(I, node, env, it, spec, k, qn):
         d = fresh("done", IntSeq)
         r = fresh("rest", IntSeq)
         P.assume(whole.to_z3() == z3.Concat(d, r))
-        done_v = SSeq(it.kind, [('s', d)], it.taint)
+        done_v = SSeq(it.kind, [('s', d)], it.taint, it.bound)
         gh = {g: _havoc_like(I, v, "g_" + g) for g, v in ghosts.items()}
         extra = dict(gh)
-        extra.update({done_name: done_v, rest_name: SSeq(it.kind, [('s', r)], it.taint),
+        extra.update({done_name: done_v, rest_name: SSeq(it.kind, [('s', r)], it.taint, it.bound),
                       idx_name: lower_int(z3.Length(d))})
-        _assume_inv(I, spec, env, extra)
+        _assume_inv(I, spec, env, extra, spec._havocked | set(gh))
         if P.choose(2, "loop") == 0:
             x = fresh("x")
             r2 = fresh("rest", IntSeq)
             P.assume(r == z3.Concat(z3.Unit(x), r2))
-            P.assume(z3.And(x >= 0, x <= (255 if it.kind == 'bytes' else 0x10FFFF)))
-            item = SInt(x, it.taint) if it.kind == 'bytes' else SSeq('str', [('u', [x])], it.taint)
+            P.assume(z3.And(x >= it.bound[0], x <= it.bound[1]))
+            item = SInt(x, it.taint) if it.kind == 'bytes' else SSeq('str', [('u', [x])], it.taint, it.bound)
             I.assign(node.target, item, env)
             snap = _heap_snapshot(I, env)
             try:
@@ -496,8 +535,8 @@ def symbolic_for(I, node, env, it, spec, k, qn):
                 extra2[g] = I.eval_spec(spec.ghost_step[g], loc, env.globals,
                                         env.locals.get('__old__'), env.cls_ctx) \
                     if g in spec.ghost_step else gh[g]
-            extra2.update({done_name: SSeq(it.kind, [('s', d), ('u', [x])], it.taint),
-                           rest_name: SSeq(it.kind, [('s', r2)], it.taint),
+            extra2.update({done_name: SSeq(it.kind, [('s', d), ('u', [x])], it.taint, it.bound),
+                           rest_name: SSeq(it.kind, [('s', r2)], it.taint, it.bound),
                            idx_name: lower_int(z3.Length(d) + 1)})
             _prove_inv(I, spec, env, extra2, base + ".preserved")
             raise _pyvc().PathEnd()
@@ -524,7 +563,7 @@ def symbolic_while(I, node, env, spec, k, qn):
     _havoc_loop_state(I, node, env, spec, "W%d" % k)
     gh = {g: _havoc_like(I, v, "g_" + g) for g, v in ghosts.items()}
     extra = dict(gh)
-    _assume_inv(I, spec, env, extra)
+    _assume_inv(I, spec, env, extra, spec._havocked | set(gh))
     dec0 = None
     if spec.decreases:
         loc = dict(env.locals)
@@ -617,9 +656,22 @@ def sb_be(I, args, kw):
         return (v % (256 ** n)).to_bytes(n, 'big')
     from .builtins_model import known_digits
     d = known_digits(I, n, v)
+    if d is None and isinstance(v, SInt):
+        # digit lemma: if pc forces v == T for a composed T with known digits, use them
+        reg = I.path.ghost.get('digits', {})
+        for tid in reversed(list(reg)):
+            T, els = reg[tid]
+            if len(els) <= n and I.path.is_valid(v.t == T):
+                d = [0] * (n - len(els)) + list(els)
+                break
     if d is not None:
         return seq_lower(SSeq('bytes', [('u', d)], taint_of(v)))
-    return seq_lower(SSeq('bytes', [('u', be_chunks(n, int_term(v)))], taint_of(v)))
+    ds = be_chunks(n, int_term(v))
+    if isinstance(v, SInt) and I.path.is_valid(z3.And(v.t >= 0, v.t < 256 ** n)):
+        # remember that these digit terms compose back to v (be_int o be == id)
+        rev = I.path.ghost.setdefault('undigits', {})
+        rev[tuple(d.get_id() for d in ds)] = (ds, v)
+    return seq_lower(SSeq('bytes', [('u', ds)], taint_of(v)))
 
 
 @spec_builtin('be_int')
@@ -633,6 +685,11 @@ def sb_be_int(I, args, kw):
         raise OutOfFragment("be_int of symbolic-length bytes")
     t = z3.IntVal(0)
     els = []
+    flat = [e for c in s.chunks for e in c[1]]
+    if all(not isinstance(e, int) for e in flat):
+        ent = I.path.ghost.get('undigits', {}).get(tuple(e.get_id() for e in flat))
+        if ent is not None and all(a.eq(b) for a, b in zip(ent[0], flat)):
+            return ent[1]
     for c in s.chunks:
         for e in c[1]:
             t = t * 256 + (z3.IntVal(e) if isinstance(e, int) else e)
@@ -650,6 +707,12 @@ def sb_zeros(I, args, kw):
     n = args[0]
     if isinstance(n, int):
         return bytes(max(n, 0))
+    vals = I.path.enumerate_small(int_term(n))
+    if vals is not None:
+        for cand in vals:
+            if I.path.branch(int_term(n) == cand):
+                return bytes(max(cand, 0))
+        raise _pyvc().Infeasible()
     return M.rep_seq(I, 'bytes', 0, n)
 
 
@@ -696,6 +759,8 @@ def sb_forall_elems(I, args, kw):
                         return False
                 else:
                     conj.append(z3.And(e >= lo, e <= hi))
+        elif lo <= c[2][0] and c[2][1] <= hi:
+            continue
         else:
             i = z3.Int("fa_i!%d" % c[1].get_id())
             conj.append(z3.ForAll([i], z3.Implies(z3.And(i >= 0, i < z3.Length(c[1])),
@@ -743,3 +808,11 @@ for _n, _marker in list(M.SPEC_BUILTINS.items()):
     if _f is not None:
         M._MODELS[id(_f)] = M._MODELS[id(_marker)]
         M._MODEL_KEEP.append(_f)
+
+
+import logging as _logging  # noqa: E402
+
+
+@model_for(_logging.getLogger)
+def m_getlogger(I, args, kw):
+    return Opaque('object', 'logger', facts={'noraise', 'logger', 'truthy'})
